@@ -185,3 +185,163 @@ func init() {
 }
 
 var _ = packages.NeedName
+
+// WORKALIAS — once a working version of an operand has been chosen, the operand's own data is not read any more.
+//
+// The scale-matching routines set `tmp0` to the operand `c0` on some paths and to a rescaled copy of it in a scratch
+// buffer on others; from there on `tmp0` is the operand. `opOut.Value[i].CopyLvl(level, c0.Value[i])` after that
+// point copies the *unscaled* components on exactly the paths where a rescaled copy had to be made.
+//
+// Rule: when a local T of an element type is assigned at least twice in a function, at least once to an operand
+// parameter P itself (or to a literal view `&Ciphertext{Element: *P}`) and at least once to something else, then after
+// the last of these assignments (source order) no expression reads the components of P (`P.Value[…]`, `P.El().Value[…]`).
+// Metadata of P (Degree, Level, Scale) may still be read.
+func scanWorkAlias(c *core.Ctx) []ob {
+	var out []ob
+	n := 0
+	c.FuncDecls(func(pk *packages.Package, file *ast.File, fd *ast.FuncDecl) {
+		if fd.Body == nil || fileIsTestSupport(c.Program, fd.Pos()) || inExamples(pk) {
+			return
+		}
+		info := pk.TypesInfo
+		fn, _ := info.Defs[fd.Name].(*types.Func)
+		if fn == nil {
+			return
+		}
+		sig := fn.Type().(*types.Signature)
+		params := map[types.Object]bool{}
+		for i := 0; i < sig.Params().Len(); i++ {
+			p := sig.Params().At(i)
+			if isMetaCarrier(p.Type()) && !isOutParamName(p.Name()) {
+				params[p] = true
+			}
+		}
+		if len(params) == 0 {
+			return
+		}
+		fkey := core.FuncKey(pk, fd)
+		// viewOf: e is P, or a literal/address view of P
+		viewOf := func(e ast.Expr) types.Object {
+			e = unparen(e)
+			if id, ok := e.(*ast.Ident); ok && params[info.Uses[id]] {
+				return info.Uses[id]
+			}
+			if u, ok := e.(*ast.UnaryExpr); ok && u.Op == token.AND {
+				if cl, ok := unparen(u.X).(*ast.CompositeLit); ok && len(cl.Elts) == 1 {
+					el := cl.Elts[0]
+					if kv, ok := el.(*ast.KeyValueExpr); ok {
+						el = kv.Value
+					}
+					if st, ok := unparen(el).(*ast.StarExpr); ok {
+						if id, ok := unparen(st.X).(*ast.Ident); ok && params[info.Uses[id]] {
+							return info.Uses[id]
+						}
+					}
+				}
+			}
+			return nil
+		}
+		type asg struct {
+			pos  token.Pos
+			view types.Object
+		}
+		assigns := map[types.Object][]asg{}
+		ast.Inspect(fd.Body, func(x ast.Node) bool {
+			as, ok := x.(*ast.AssignStmt)
+			if !ok {
+				return true
+			}
+			for i, l := range as.Lhs {
+				id, ok := l.(*ast.Ident)
+				if !ok {
+					continue
+				}
+				o := info.Defs[id]
+				if o == nil {
+					o = info.Uses[id]
+				}
+				if o == nil || params[o] || !isMetaCarrier(o.Type()) {
+					continue
+				}
+				var view types.Object
+				if len(as.Lhs) == len(as.Rhs) {
+					view = viewOf(as.Rhs[i])
+				} // else: `t, err = f(…)`, something else than the operand
+				assigns[o] = append(assigns[o], asg{as.End(), view})
+			}
+			return true
+		})
+		for t, as := range assigns {
+			if len(as) < 2 {
+				continue
+			}
+			var p types.Object
+			other := false
+			last := token.NoPos
+			consistent := true
+			for _, a := range as {
+				if a.view != nil {
+					if p != nil && p != a.view {
+						consistent = false
+					}
+					p = a.view
+				} else {
+					other = true
+				}
+				if a.pos > last {
+					last = a.pos
+				}
+			}
+			if p == nil || !other || !consistent {
+				continue
+			}
+			n++
+			key := fmt.Sprintf("WORKALIAS:%s#%s~%s", fkey, t.Name(), p.Name())
+			var bad ast.Expr
+			ast.Inspect(fd.Body, func(x ast.Node) bool {
+				ie, ok := x.(*ast.IndexExpr)
+				if !ok || bad != nil || ie.Pos() < last {
+					return bad == nil
+				}
+				se, ok := unparen(ie.X).(*ast.SelectorExpr)
+				if !ok || se.Sel.Name != "Value" {
+					return true
+				}
+				b := unparen(se.X)
+				if call, ok := b.(*ast.CallExpr); ok {
+					if s2, ok := unparen(call.Fun).(*ast.SelectorExpr); ok && s2.Sel.Name == "El" {
+						b = unparen(s2.X)
+					}
+				}
+				if id, ok := b.(*ast.Ident); ok && info.Uses[id] == p {
+					bad = ie
+				}
+				return true
+			})
+			props := []string{"C09"}
+			switch {
+			case strings.HasPrefix(fkey, "schemes/bgv"):
+				props = []string{"C05", "C09"}
+			case strings.HasPrefix(fkey, "schemes/ckks"):
+				props = []string{"C06", "C09"}
+			}
+			if bad != nil {
+				out = append(out, withProps(violOb("WORKALIAS", key, c.Rel(bad.Pos()), fmt.Sprintf("%s makes %s the working version of the operand %s (the operand itself on some paths, a rescaled or converted copy on others) and then reads %s: on the paths where a copy was made this is the unprocessed data", fkey, t.Name(), p.Name(), exprString(bad))), props...))
+			} else {
+				out = append(out, withProps(okOb("WORKALIAS", key, c.Rel(fd.Pos()), "the components of the operand are not read after its working version is chosen", true), props...))
+			}
+		}
+	})
+	c.Stats["workalias_sites"] = n
+	return out
+}
+
+func init() {
+	core.Register(&core.Rule{Name: "WORKALIAS", Props: []string{"C05", "C06", "C09"},
+		Doc: "when a local element is assigned an operand parameter (or a literal view of it) on some paths and something else on others, no component of that operand (P.Value[…]) is read after the last of these assignments",
+		Run: func(c *core.Ctx) []ob {
+			out := scanWorkAlias(c)
+			out = append(out, control(c, "WORKALIAS", scanWorkAlias, "(fixEvaluator).AlignThenCopy")...)
+			return out
+		}})
+}
